@@ -108,6 +108,13 @@ impl RecvBuf {
     pub fn recv(&mut self, offset: u64, mut data: Bytes) -> u64 {
         let previous_largest = self.largest_offset;
 
+        // An empty fragment covers no byte, but it still tells how far the stream reaches (a lone
+        // FIN beyond everything received so far): flow control is charged with the largest offset
+        // seen, not with the bytes buffered.
+        if data.is_empty() {
+            self.largest_offset = self.largest_offset.max(offset);
+        }
+
         // advance data that already read
         let mut start = offset.max(self.nread);
         data.advance(data.remaining().min((start - offset) as usize));
